@@ -60,6 +60,7 @@ func (b *xb) level(now int64) *big.Rat {
 	}
 	return t
 }
+
 // near: float64 rounding would flip the decision at this instant (exact and float disagree on ">= 1")
 func (b *xb) near(now int64) bool {
 	exact := b.level(now).Cmp(big.NewRat(1, 1)) >= 0
@@ -91,7 +92,7 @@ func (b *xb) within(now int64) bool {
 
 type rlCfg struct {
 	g, ip, ipb, pc, pcb, rl, wl, rd, mnt int64
-	ci                                  int64
+	ci                                   int64
 }
 
 func atoi64(s string) int64 { v, _ := strconv.ParseInt(s, 10, 64); return v }
@@ -181,11 +182,12 @@ func opRate(c rlCfg, op string) (*big.Rat, int64) {
 
 // rlOracle checks the property statements on the real decisions. It keeps exact shadow buckets that are
 // advanced with the REAL decisions (so that it judges each decision on its own), and flags:
-//   C18/over-admit        a bucket admitted more than burst + rate*elapsed
-//   C18/refused-with-room refused although every consulted bucket holds >= 1 token (exact, margin 1e-6)
-//   C19/global-charged    a request refused by the client's own limit lowered the global bucket
-//   C19/starved           a compliant client refused because the global bucket had been drained by
-//                         requests that were themselves refused
+//
+//	C18/over-admit        a bucket admitted more than burst + rate*elapsed
+//	C18/refused-with-room refused although every consulted bucket holds >= 1 token (exact, margin 1e-6)
+//	C19/global-charged    a request refused by the client's own limit lowered the global bucket
+//	C19/starved           a compliant client refused because the global bucket had been drained by
+//	                      requests that were themselves refused
 func rlOracle(r *Result, ops, impl []string, prop string) {
 	refs := map[string]*rlRef{}
 	single := map[string]*xb{}
